@@ -98,6 +98,17 @@ def probe(ctx, cal, m, cfg, ns, stride, rng, sb, light=False):
             base = m.idx[m.adjust(t, a[1])]
             for n in ns:
                 if not (0 <= base + n < len(m.bd)) or not (0 <= base + n - 1) or not (base + n + 1 < len(m.bd)):
+                    if n and (base + n < 0 or base + n >= len(m.bd)):
+                        # the n-th business day lies outside what the calendar knows: refusing is fine, answering with a day on the wrong side of t is not
+                        sb.reset()
+                        mon['add_nth_bday'] += 1
+                        try:
+                            got = cal.add(t, n, adj=a[0]) if a[0] else cal.add(t, n)
+                        except Exception:
+                            got = None
+                        if got is not None and ((n < 0 and not got < m.bd[base]) or (n > 0 and not got > m.bd[base])):
+                            ctx.fail('add_nth_bday', 'add(%s, %d, adj=%r) = %s lies on the wrong side of adjust(t)=%s (the %d-th business day is beyond the calendar range); cfg=%s' % (t, n, a[0], got, m.bd[base], n, _brief(cfg)))
+                            return False
                     continue
                 exp = m.bd[base + n]
                 if not (lo - DAY * 140 <= exp <= hi + DAY * 140):
@@ -153,6 +164,24 @@ def probe(ctx, cal, m, cfg, ns, stride, rng, sb, light=False):
         if st != 'ok' or list(got) != exp:
             ctx.fail('drange_1b', "cal.drange(%s, %s, '1b') = %s..., model %s...; cfg=%s" % (a, b, got[:6] if st == 'ok' else got, exp[:6], _brief(cfg)))
             return False
+    # the edges of the range: the n-th business day may lie outside what the calendar knows - refusing is fine, a day on the wrong side of t is not
+    if not light and len(m.bd) > 60:
+        for i in (0, 1, 3, 7, len(m.bd) - 1, len(m.bd) - 2, len(m.bd) - 5):
+            t = m.bd[i]
+            for n in (-2, -5, -9, -40, 2, 5, 9, 40):
+                sb.reset()
+                mon['add_nth_bday'] += 1
+                try:
+                    got = cal.add(t, n)
+                except Exception:
+                    continue
+                if 0 <= i + n < len(m.bd):
+                    okk = got == m.bd[i + n]
+                else:
+                    okk = (got < t) if n < 0 else (got > t)
+                if not okk:
+                    ctx.fail('add_nth_bday', 'add(%s, %d) = %s near the edge of the calendar range [%s, %s] (business day #%d of %d); cfg=%s' % (t, n, got, m.t0.date(), m.t1.date(), i, len(m.bd), _brief(cfg)))
+                    return False
     return True
 
 
